@@ -252,6 +252,48 @@ func (e *vfC11Env) overlap(a, b vfC11Op) (pmsg string, stuck bool) {
 	return pmsg, false
 }
 
+// burst makes all the given calls concurrently: every goroutine spins on a start flag, so the calls
+// begin within nanoseconds of each other.  Returns the first panic message ("" if none).
+func (e *vfC11Env) burst(ops []vfC11Op) (pmsg string) {
+	var mu sync.Mutex
+	var wg sync.WaitGroup
+	var ready int32
+	var start atomic.Bool
+	for _, op := range ops {
+		wg.Add(1)
+		go func(op vfC11Op) {
+			defer wg.Done()
+			defer func() {
+				if r := recover(); r != nil {
+					mu.Lock()
+					if pmsg == "" {
+						pmsg = fmt.Sprint(r)
+					}
+					mu.Unlock()
+				}
+			}()
+			atomic.AddInt32(&ready, 1)
+			for !start.Load() {
+			}
+			e.apply(op)
+		}(op)
+	}
+	for deadline := time.Now().Add(5 * time.Second); atomic.LoadInt32(&ready) < int32(len(ops)) && time.Now().Before(deadline); {
+		time.Sleep(50 * time.Microsecond)
+	}
+	start.Store(true)
+	done := make(chan struct{})
+	go func() { wg.Wait(); close(done) }()
+	select {
+	case <-done:
+	case <-time.After(20 * time.Second):
+		return "concurrent calls did not return"
+	}
+	mu.Lock()
+	defer mu.Unlock()
+	return pmsg
+}
+
 func (e *vfC11Env) query(q int) ExecutableQuery {
 	if q < 0 {
 		return &vfC11Query{}
@@ -313,6 +355,15 @@ func vfC11Run(c *vfC11Case) (v vfC11Vector) {
 			for k := 0; k < op.H; k++ {
 				e.drain(e.policy.Pick(e.query(-1)))
 			}
+			continue
+		}
+		if op.Op == "conc" && i+op.H < len(c.Hist) {
+			// the next op.H calls are made at the same moment from as many goroutines
+			if msg := e.burst(c.Hist[i+1 : i+1+op.H]); msg != "" {
+				v.PMsg, v.PClass, v.PAt = msg, vfC11PanicClass(msg, "op"), i+1
+				return v
+			}
+			i += op.H
 			continue
 		}
 		if op.Op == "par" && i+2 < len(c.Hist) {
@@ -958,6 +1009,55 @@ func TestVfC11Executor(t *testing.T) {
 		v.Groups = []vfC11Group{{Q: q, K: 1, Picks: [][]int{offered}, Capped: []bool{atomic.LoadInt32(&qry.live) != 0}, Realrep: realrep}}
 		v.Xov = int(atomic.LoadInt32(&watch.overlaps))
 		if err := enc.Encode(v); err != nil {
+			t.Fatal(err)
+		}
+	}
+	fmt.Printf("VFSUMMARY {\"executed\": %d}\n", count)
+}
+
+// TestVfC11Burst: notification calls that arrive at the same moment (several nodes finish connecting
+// together: HostUp / AddHost / RemoveHost / HostDown for DIFFERENT hosts from different goroutines; the
+// calls commute on the cluster view).  After quiescence the policy is picked from sequentially; the
+// vectors (history with a "conc" marker + picks) are judged by TLC like every other vector: every up
+// host the policy knows must be offered.  Verdicts come from the settled state, never from timing.
+func TestVfC11Burst(t *testing.T) {
+	outp := vfC10Env(t, "VF_RESULTS")
+	seed, _ := strconv.ParseInt(os.Getenv("VF_SEED"), 10, 64)
+	count, _ := strconv.Atoi(os.Getenv("VF_COUNT"))
+	if count == 0 {
+		count = 300
+	}
+	rnd := rand.New(rand.NewSource(seed*49979687 + 7))
+	outf, err := os.Create(outp)
+	if err != nil {
+		t.Fatal(err)
+	}
+	defer outf.Close()
+	wr := bufio.NewWriterSize(outf, 1<<20)
+	defer wr.Flush()
+	enc := json.NewEncoder(wr)
+	for id := 1; id <= count; id++ {
+		w := vfC11RandomWorld(rnd, 8, 2)
+		for len(w.Dc) < 4 {
+			w = vfC11RandomWorld(rnd, 8, 2)
+		}
+		n := len(w.Dc)
+		hist := []vfC11Op{{"setpart", 0}, {"ks", 0}}
+		// first burst: every host arrives (AddHost or HostUp) at once
+		hist = append(hist, vfC11Op{"conc", n})
+		for _, h := range rnd.Perm(n) {
+			hist = append(hist, vfC11Op{[]string{"add", "up"}[rnd.Intn(2)], h + 1})
+		}
+		// second burst: some leave / are reported down while the others are re-announced
+		if rnd.Intn(2) == 0 {
+			hist = append(hist, vfC11Op{"conc", n})
+			for _, h := range rnd.Perm(n) {
+				hist = append(hist, vfC11Op{[]string{"remove", "down", "up", "add", "up"}[rnd.Intn(5)], h + 1})
+			}
+		}
+		q := w.Tokens[rnd.Intn(len(w.Tokens))]
+		c := &vfC11Case{ID: id, W: w, Hist: hist, Groups: []vfC11Group{{Q: -1, K: 2}, {Q: q, K: 1}}}
+		if err := enc.Encode(vfC11Run(c)); err != nil {
 			t.Fatal(err)
 		}
 	}
